@@ -2472,6 +2472,7 @@ func (n *c01Nodes) auditLegs(o *c01Out, rnd *rand.Rand, creds map[string]string)
 		{"no-proof", base(func(m map[string]any) { delete(m, "proof") })},
 		{"year-1-date", base(func(m map[string]any) { m["date"] = "0001-01-01T00:00:00Z" })},
 		{"dated-before-the-key", resign(base(func(m map[string]any) { m["date"] = time.Unix(c01T0-5000, 0).UTC().Format(time.RFC3339) }), didI+"#k1")},
+		{"dated-before-the-signing-key-was-added", resign(base(func(m map[string]any) { m["date"] = time.Unix(c01T0-5000, 0).UTC().Format(time.RFC3339) }), didI+"#k2")},
 		{"other-party-whole", resign(base(func(m map[string]any) { m["subject"] = didO + "#1"; m["issuer"] = didO }), didO+"#k1")},
 		{"subject-prefix-lookalike", resign(base(func(m map[string]any) { m["subject"] = didI + "x#1" }), didI+"#k1")},
 		{"vm-prefix-lookalike", func() map[string]any {
